@@ -11,4 +11,27 @@ CHECKS = {
         note="Trusted: the 6-line wrap() reference. Widths above 10 are sampled, not exhaustive.",
     ),
 }
+CHECKS["C01"] = dict(
+    level="exploration",
+    technique="runtime monitors: API-boundary recorder + independent reference evaluation of every active hard statement; solver-formula monitor at the guarded hook (solver clone, pointwise SAT over the whole bounded domain)",
+    text="Generated constraint programs (typed expression trees over every documented operator, in/rangelist, if/else-if/else, implies, "
+         "unique, Boolean composition, enum fields, signed/unsigned fields of 1-8 bits, non-random fields at boundary values) are run "
+         "through histories of all four call kinds on live objects. After each successful call the values read back are evaluated "
+         "against an independent reference semantics and the declared types; for every call the hard formula the library is about to "
+         "assert is compared POINTWISE with the exhaustively enumerated reference solution set over the whole domain of the call's "
+         "random fields (<= 2^10 points quick, 2^14 thorough), which exposes lost or mis-lowered constraints that random draws may never witness.",
+    design_ref="DESIGN.md section 3, C01; section 2.2-2.3 (M1, M2)",
+    note="Trusted: ref.py (400 lines, never imports vsc) on the validated input language; constructs where SystemVerilog-style meaning is "
+         "contestable raise Corner and are not judged. Exhaustive equivalence only up to the stated bit budgets.",
+)
+CHECKS["C02"] = dict(
+    level="exploration",
+    technique="runtime monitor: outcome (return / SolveFailure / other exception) of every call compared with exhaustive reference satisfiability; hook monitor cross-checks UNSAT from inside the solver",
+    text="Same program/history generators as C01 (about 45% of the generated calls are unsatisfiable, the rest satisfiable with small "
+         "solution sets), half of the cases with solve_fail_debug=1 on one call. Violations: satisfiable call raised anything; "
+         "unsatisfiable call returned; any exception other than SolveFailure out of the library. Satisfiability is decided by "
+         "exhaustive enumeration of the reference semantics over the call's random fields.",
+    design_ref="DESIGN.md section 3, C02",
+    note="Trusted: ref.py; bounded domains (<= 10/14 random bits). One known finding (F23) is classified by mechanism.",
+)
 NOT_YET = {}
